@@ -28,6 +28,28 @@ CHECKS['C13'] = ('For EVERY ASCII file name up to the length bound at every dire
   'Targets absolute and lexically clean; non-ASCII names outside the alphabet; ouroboros plumbing stubbed. ' + TRUST, 'DESIGN.md §5 C13')
 CHECKS['C18'] = ('Record codec only: for EVERY kind / text / target name up to the length bound (every ASCII byte symbolic) and every pid / exit status (symbolic i32), Meta::parse(format(m)) returns the same kind, pid and text (including texts that look like structured records), parse rejects strings with a newline, parse_done_text inverts the "done" text for names with spaces, is_valid_log_line accepts exactly lines with one newline at the end, and log::clean_line output is always a valid line - all on the real MIR of logs.rs / log.rs. That every stderr line of every script appears once, in order, under its target at any -j (the log follower racing with writers) is NOT claimed.',
   'Integer and float formatting are opaque tokens with an injectivity axiom. ' + TRUST, 'DESIGN.md §5 C18')
+BUILD_NOTE = ('One build job of one target; the forked child (sh -e x.do) is not executed - its observable outcome is an input. Filesystem, '
+              'database and process model in specs/buildworld.py; builder::run (the scheduler) is not executed, the one fact taken from '
+              'it (commit-on-drop of the transaction handed to BuildJob::start) is read from its source text. ' + TRUST)
+CHECKS['C04'] = ('For EVERY script outcome (exit status symbolic i32; stdout / $3 / neither / both; $1 untouched / rewritten / removed), every '
+  'prior target state (absent, file, directory) and prior Files row (all columns symbolic), with File::create and rename optionally failing: '
+  'on every path of the real BuildJob::record_new_state the only operations that ever act on the target are rename(tmp -> target) and '
+  'unlink(target), they happen only if the script exited 0 without touching $1 and without producing both outputs, the documented status '
+  '(206 / 207 / script status / non-zero on internal failure) is returned, no temporary file is left, on failure the target is exactly as '
+  'the script left it, on success it is the complete capture or the $3 file, and the Files row afterwards matches. What the child does '
+  'with its file descriptors and SIGKILL of redo itself (C10) are outside.', BUILD_NOTE, 'DESIGN.md §5 C04')
+CHECKS['C10'] = ('One whole build job (real start_self, the script as an input, the real job future with record_new_state and the final '
+  'commit) x a kill immediately before every state-changing effect (unlink, create, copy, rename, commit, script effects): on the world the '
+  'kill leaves behind (filesystem as of the prefix, database as of the last commit) the real is_dirty and the real start_self of the next '
+  'run must not walk away from the target as if it were a user file, must not have lost dirtiness, and must remove a stale temporary file '
+  'before the script starts. Power loss (synchronous=off), kills inside SQLite, locks and multi-process trees are outside.',
+  BUILD_NOTE, 'DESIGN.md §5 C10')
+CHECKS['C11'] = ('For EVERY prior Files row (all columns symbolic, under the invariant generated => stamp recorded), filesystem state of the '
+  'target, placement of .do files and stale temporary file: the real BuildJob::start_self never starts a script for, and never unlinks / '
+  'renames / creates, an existing file that is not generated, is marked overridden, or whose recorded stamp differs from the disk in mtime '
+  'or size; it answers success, and the committed row no longer calls it a target; once such a file is absent the job is started again; '
+  '"no rule" gives success for an existing file and failure for an absent one. record_new_state (the only code that replaces or removes a '
+  'target) is only reachable through a started job. What a user\'s .do script deletes itself is outside.', BUILD_NOTE, 'DESIGN.md §5 C11')
 NA = {
  'C06': 'Mutual exclusion of .do executions is a statement about interleavings of independent OS processes over kernel fcntl() range locks and SQLite transactions; no function of this crate decides it in isolation, so there is nothing for a bounded symbolic execution of the real code to be run on (a hand-written process model would be a different technique). The encodable fragments are checked elsewhere: REDO_UNLOCKED is only used for the lock the caller holds (C01/C03 orchestration obligation), Lock::try_lock/wait_lock consult the cycle detector first (C12).',
  'C07': 'Quantifies over process schedules, -j and script durations inside builder::run (a 3500-line lowered coroutine driving FuturesUnordered and child processes) and compares outcomes with the serial build; the engine executes single-process MIR paths, not schedules of several processes. The single-process kernel facts it relies on (built in this run => Clean, checked in this run => answered without stat) are decided under C02/C14.',
